@@ -133,6 +133,12 @@ def cases_gradient(tier):
     out[-1].update(ests=["mean", "mean", "stddev"], omap_est=[0, 2, 2])
     add(2, 1, 1, 1, None, False, "mean", cw=[0.25, 0.75], K=3)
     out[-1].update(ests=["stddev", "mean"], omap_est=[1], cmap_est=[0, 1, 0])
+    # values with a large common offset (bounded run-time checking only: the engine's reals do not round) - the chain-rule gradient
+    # of the standard deviation divides by the standard deviation, which a cancelling one-pass variance gets wrong
+    add(3, 1, 1, 1, None, False, "stddev", cw=[0.2, 0.3, 0.5])
+    out[-1].update(offset=1.0e6, __concrete_only__=True)
+    add(3, 2, 2, 1, None, False, "stddev", cw=[0.2, 0.3, 0.5])
+    out[-1].update(offset=1.0e6, __concrete_only__=True)
     if not quick:
         add(3, 1, 1, 4, None, False, "mean", cw=[0.2, 0.3, 0.5], K=2)
         out[-1].update(ests=["mean", "stddev", "mean", "stddev"], omap_est=[3, 0, 3, 0], cmap_est=[2, 1], __concrete_only__=True)
@@ -162,7 +168,7 @@ def cases_gradient(tier):
         yield "R%dP%dN%dJ%dK%d/mask=%s/%s/%s/fr=%s/fp=%s/w=%s%s%s" % (
             c["R"], c["P"], c["N"], c["J"], c["K"], c["mask"], "merged" if c["merge"] else "per-realization", c["est"],
             "".join("F" if f else "o" for f in c["failed_real"]), "|".join("".join("F" if f else "o" for f in row) for row in c["failed_pert"]),
-            c["cw"], "/shared" if c["shared"] else "", "/identical" if c["identical"] else "") + ("/estimators=%s,%s,%s" % ("+".join(c["ests"]), c.get("omap_est"), c.get("cmap_est")) if c.get("ests") else "") + ("/function-first-%s" % c["prior_function"] if c.get("prior_function") else "") + ("/nan-in-constraint-only" if c.get("fail_in") else ""), c
+            c["cw"], "/shared" if c["shared"] else "", "/identical" if c["identical"] else "") + ("/estimators=%s,%s,%s" % ("+".join(c["ests"]), c.get("omap_est"), c.get("cmap_est")) if c.get("ests") else "") + ("/offset=%g" % c["offset"] if c.get("offset") else "") + ("/function-first-%s" % c["prior_function"] if c.get("prior_function") else "") + ("/nan-in-constraint-only" if c.get("fail_in") else ""), c
 
 
 def scn_gradient(T, case):
@@ -177,6 +183,8 @@ def scn_gradient(T, case):
     # affine ensemble
     a = T.real("slopes", (1 if case["identical"] else R, J + K, N))
     c0 = T.real("offsets", (R, J + K))
+    if case.get("offset"):
+        c0 = c0 + case["offset"]
     slope = lambda r, j: a[0 if case["identical"] else r, j]  # noqa: E731
     x = T.real("x", (N,))
     S = T.real("samples", (1 if case["shared"] else R, P, N))
